@@ -118,7 +118,7 @@ class MembershipMonitor(Ext):
         exp = self.expected_members(p)
         mon.obs['member_set_checks'] += 1
         if have != exp:
-            raise Violation('C10', 'member_set_differs_from_log', '%r reports members %r, its log (base %r + membership entries) defines %r'
+            self.mon.flag('C10', 'member_set_differs_from_log', '%r reports members %r, its log (base %r + membership entries) defines %r'
                             % (p, sorted(have), sorted(self.base[p][0]), sorted(exp)),
                             loaded_snapshot=self.base[p][1] > 0)
         # (2) gate: at most one uncommitted membership entry in a leader's log, none before its own no-op is committed
@@ -127,7 +127,7 @@ class MembershipMonitor(Ext):
             term = p.obj.raftCurrentTerm
             unc = [e for e in p.journal.mirror if e[1] > c and cmd_type(e[0]) == MEMBERSHIP]
             if len(unc) > 1:
-                raise Violation('C10', 'two_uncommitted_changes', '%r (leader, commit index %d) holds membership entries %r above its commit index'
+                self.mon.flag('C10', 'two_uncommitted_changes', '%r (leader, commit index %d) holds membership entries %r above its commit index'
                                 % (p, c, [(e[1], parse_membership(e[0])) for e in unc]), n=len(unc))
             own = [e for e in unc if e[2] == term]
             if own:
@@ -137,7 +137,7 @@ class MembershipMonitor(Ext):
                         first_own = e[1]
                         break
                 if first_own is not None and first_own > c and own[0][1] != first_own:
-                    raise Violation('C10', 'change_before_own_term_commit',
+                    self.mon.flag('C10', 'change_before_own_term_commit',
                                     '%r appended membership entry %d in term %d before committing an entry of that term (commit index %d, first own entry %d)'
                                     % (p, own[0][1], term, c, first_own))
             if unc:
@@ -181,7 +181,7 @@ class MembershipMonitor(Ext):
             have = set(n.id for n in p.obj.otherNodes) | {p.key}
             self.mon.obs['agreement_checks'] += 1
             if have != self.committed_members:
-                raise Violation('C10', 'members_disagree_at_rest', '%r reports members %r; the committed log defines %r'
+                self.mon.flag('C10', 'members_disagree_at_rest', '%r reports members %r; the committed log defines %r'
                                 % (p, sorted(have), sorted(self.committed_members)))
 
 
@@ -239,6 +239,8 @@ class MemberSim(Sim):
             if c < 0.5 and outside:
                 return ('M', 'add', via.key, rng.choice(outside), path)
             cands = [a for a in known if a != via.key or path == 'admin']
+            if self.cfg.get('member_ops') == 'add_only':
+                cands = []        # (runs that are not about removals: no member is ever stranded behind removed peers)
             if cands and len(known) > 1:
                 return ('M', 'rem', via.key, rng.choice(sorted(cands)), path)
             if outside:
